@@ -2,13 +2,18 @@
 # Offline setup: full .vo build of the Coq development (never -vos), extraction, OCaml driver, libraptor from /repo.
 set -e
 cd "$(dirname "$0")"
-( cd coq && coq_makefile -f _CoqProject -o Makefile >/dev/null && timeout 3000 make -k -j16 ) || true
 python3 - <<'PY'
-import sys; sys.path.insert(0, "lib")
+import sys, glob, os, importlib
+sys.path.insert(0, "lib"); sys.path.insert(0, "props")
 import buildlib, coqtools
+coqtools.regen_makefile()
+rc, log, wall = coqtools.make([], timeout=3000)
+print("coq build rc=%s in %.0fs" % (rc, wall)); print(log[-1500:] if rc else "")
 print("libraptor:", buildlib.build_lib())
-try:
-    print("model driver:", coqtools.build_extracted())
-except Exception as e:
-    print("model driver failed:", e)
+for f in sorted(glob.glob("props/C*.py")):
+    mod = importlib.import_module(os.path.basename(f)[:-3])
+    try:
+        print("model driver:", coqtools.build_extracted(getattr(mod, "FAMILY", "sparse"), getattr(mod, "OCAML_SRCS", ("conv.ml", "mat.ml", "drv_sparse.ml"))))
+    except Exception as e:
+        print("model driver failed:", e)
 PY
